@@ -75,7 +75,7 @@ using ModelConstPtr = std::shared_ptr<const Model>; /**< Type definition for sha
 using ParentedEntityConstPtr = std::shared_ptr<const ParentedEntity>; /**< Type definition for shared parented entity const pointer. */
 using UnitsConstPtr = std::shared_ptr<const Units>; /**< Type definition for shared units const pointer. */
 
-using ConnectionMap = std::map<VariablePtr, VariablePtr>; /**< Type definition for a connection map.*/
+using ConnectionMap = std::vector<std::pair<VariablePtr, VariablePtr>>; /**< Type definition for a connection map.*/
 using NamePairList = std::vector<NamePair>; /**< Type definition for a list of a pair of names. */
 
 /**
